@@ -19,7 +19,7 @@ import (
 	"encoding/json"
 	"fmt"
 	"math"
-	"slices"
+	"regexp"
 	"strconv"
 	"strings"
 	"sync"
@@ -104,15 +104,39 @@ func (d *Datastore) Get(ctx context.Context, req *sdcpb.GetDataRequest, nCh chan
 }
 
 // atOrBelowRequested reports whether the stored path lies at or below one of the requested paths, element by element.
-// The cache matches a requested path as a prefix of the stored keys and reads key values as patterns: it also returns
-// the entries whose name merely starts with a requested one.
+// The cache matches a requested path as a prefix of the stored keys: it also returns the entries whose name merely
+// starts with a requested one.
 func atOrBelowRequested(requested [][]string, stored []string) bool {
 	for _, r := range requested {
-		if len(r) <= len(stored) && slices.Equal(r, stored[:len(r)]) {
+		if len(r) <= len(stored) && elementsMatch(r, stored[:len(r)]) {
 			return true
 		}
 	}
 	return false
+}
+
+// elementsMatch compares a requested element sequence with a stored one of the same length.
+func elementsMatch(requested, stored []string) bool {
+	for i, r := range requested {
+		if !elementMatches(r, stored[i]) {
+			return false
+		}
+	}
+	return true
+}
+
+// elementMatches reports whether a stored path element is the requested one. A '*' in the requested element
+// (a wildcard key value) stands for any run of characters, as it does for the cache.
+func elementMatches(requested, stored string) bool {
+	if requested == stored {
+		return true
+	}
+	if !strings.Contains(requested, "*") {
+		return false
+	}
+	pattern := "^" + strings.ReplaceAll(regexp.QuoteMeta(requested), `\*`, ".*") + "$"
+	matched, err := regexp.MatchString(pattern, stored)
+	return err == nil && matched
 }
 
 func (d *Datastore) handleGetDataUpdatesSTRING(ctx context.Context, name string, req *sdcpb.GetDataRequest, paths [][]string, out chan *sdcpb.GetDataResponse) error {
